@@ -391,6 +391,21 @@ func (c *Ctx) checkMergeHelper(helper *ssa.Function, a *IdxAnchors, fOld, fMap *
 func ruleC06R5(c *Ctx) {
 	a := c.Idx()
 	n := 0
+	// functions whose []uint64 result is stored as a snapshot's offsets: the table is built there
+	builders := map[*ssa.Function]bool{}
+	for _, fn := range c.FuncsIn(pkgIndex) {
+		for _, st := range storesToField(fn, a.SnapOffsets) {
+			if call, ok := st.Val.(*ssa.Call); ok {
+				if cal := staticCallee(call.Common()); cal != nil && c.InRepo(cal) {
+					builders[cal] = true
+				}
+			}
+		}
+	}
+	isU64Slice := func(t types.Type) bool {
+		sl, ok := t.Underlying().(*types.Slice)
+		return ok && types.Identical(sl.Elem(), types.Typ[types.Uint64])
+	}
 	for _, fn := range c.FuncsIn(pkgIndex) {
 		// values appended / stored into Snapshot.offsets
 		var offVals []ssa.Value
@@ -398,7 +413,7 @@ func ruleC06R5(c *Ctx) {
 			switch x := in.(type) {
 			case *ssa.Store:
 				if ia, ok := x.Addr.(*ssa.IndexAddr); ok {
-					if f, _ := loadedField(ia.X); f == a.SnapOffsets {
+					if f, _ := loadedField(ia.X); f == a.SnapOffsets || (builders[fn] && isU64Slice(ia.X.Type())) {
 						offVals = append(offVals, x.Val)
 					}
 					if al, ok := ia.X.(*ssa.Alloc); ok && al.Comment == "varargs" && types.Identical(x.Val.Type(), types.Typ[types.Uint64]) {
@@ -407,7 +422,7 @@ func ruleC06R5(c *Ctx) {
 							if sl, ok := r.(*ssa.Slice); ok && sl.Referrers() != nil {
 								for _, rr := range *sl.Referrers() {
 									if call, ok := rr.(*ssa.Call); ok && builtinName(call.Common()) == "append" {
-										if f, _ := loadedField(call.Common().Args[0]); f == a.SnapOffsets {
+										if f, _ := loadedField(call.Common().Args[0]); f == a.SnapOffsets || (builders[fn] && isU64Slice(call.Type())) {
 											offVals = append(offVals, x.Val)
 										}
 									}
